@@ -59,6 +59,23 @@ Parse(g) == ParseSeq(g, 1, TRUE).items
 
 -----------------------------------------------------------------------------
 (* 2. Declarative facts.                                                    *)
+(* The printed form of a genome (Display of Plushy / PushGene): the genes in  *)
+(* order, separated by single spaces; an instruction is followed by one "{"  *)
+(* per block it opens, a close marker is "}".  As a token sequence:           *)
+(* "i" (an instruction's own text), "{", "}".  A reader of the printed form   *)
+(* sees exactly the bracket structure Parse builds:                           *)
+(*   RenderMatchesParse: #"{" = #blocks of Parse(g);  #"i" = #instructions.   *)
+RECURSIVE Render(_)
+Render(g) ==
+  IF g = <<>> THEN <<>>
+  ELSE LET h == Head(g) IN
+       (IF IsClose(h) THEN <<"}">> ELSE <<"i">> \o [k \in 1..h.o |-> "{"]) \o Render(Tail(g))
+RECURSIVE CountTok(_, _)
+CountTok(ts, t) == IF ts = <<>> THEN 0 ELSE (IF Head(ts) = t THEN 1 ELSE 0) + CountTok(Tail(ts), t)
+RECURSIVE Blocks(_)
+Blocks(p) == IF p = <<>> THEN 0
+             ELSE (IF "b" \in DOMAIN Head(p) THEN 1 + Blocks(Head(p).b) ELSE 0) + Blocks(Tail(p))
+
 (* the program as a flat token sequence: instructions, and an opening / a closing *)
 (* marker around the items of every block (used to compare DEEPLY nested programs) *)
 RECURSIVE Tokens(_)
@@ -159,6 +176,11 @@ Total          == done => Len(open) = 1
 Agree          == done => SMResult = Parse(genome)
 OrderPreserved == done => Flatten(SMResult) = Instrs(genome)
 Structured     == done => WellFormed(SMResult)
+(* the printed genome shows the structure the translation builds *)
+RenderMatchesParse ==
+  done => /\ CountTok(Render(genome), "{") = Blocks(SMResult)
+          /\ CountTok(Render(genome), "i") = Len(Instrs(genome))
+          /\ CountTok(Render(genome), "}") = Len(genome) - Len(Instrs(genome))
 (* Mid-run: what has been gathered so far, read depth-first, is the prefix  *)
 (* of instructions read so far.                                             *)
 RECURSIVE Gathered(_)
